@@ -97,8 +97,9 @@ def main():
                 print("   %s: %s" % (p, results[p]["keys"][:2]))
             out_dir = os.path.join(HERE, "seeded", a.name)
             os.makedirs(out_dir, exist_ok=True)
-            shutil.copy(patch, os.path.join(out_dir, "patch.diff"))
-            shutil.copy(demo, os.path.join(out_dir, "demo.rs"))
+            for src_, dst_ in ((patch, os.path.join(out_dir, "patch.diff")), (demo, os.path.join(out_dir, "demo.rs"))):
+                if os.path.abspath(src_) != os.path.abspath(dst_):
+                    shutil.copy(src_, dst_)
             meta.update({"name": a.name, "validated": not a.novalidate, "ran": ran, "checks": results, "caught_by": caught,
                          "intended_property": meta.get("property"), "repo_head": subprocess.run(["git", "-C", REPO, "log", "--format=%h", "-1"], capture_output=True, text=True).stdout.strip()})
             json.dump(meta, open(os.path.join(out_dir, "meta.json"), "w"), indent=1)
